@@ -101,6 +101,11 @@ def gen_marker(rng, n, tier):
                     # a third of the cases first run another segmentation into the same output feature (other thresholds, other mode): the second run must overwrite it
                     'before': ([rng.choice([0.0, 1.0, 2.0, 2.5, -2.0]) for _ in range(nf)], rng.choice([1, 2])) if rng.random() < 0.33 else None})
         c = out[-1]
+        if rng.random() < 0.2:                       # infinite values (a ratio over a zero denominator): only NaN is ignored, +inf exceeds every threshold and -inf none
+            for col in c['cols']:
+                for i in range(k):
+                    if rng.random() < 0.35:
+                        col[i] = rng.choice([math.inf, -math.inf])
         if c['nameset'] == 'repeat' and len(c['cols']) >= 2:
             c['cols'][-1] = list(c['cols'][0])      # the last entry tests the first feature again
             c['scalar'] = False
@@ -156,12 +161,23 @@ def run_marker(case):
     return {'out': [float(v) for v in tr.getAnalyticalFeature(OUT)], 'cols': [(case['cols'][j] if nm == OUT else [None if v != v else v for v in tr.getAnalyticalFeature(nm)]) for j, nm in enumerate(names)], 'names': tr.getListAnalyticalFeatures()}
 
 
+def ext(v):
+    """a non-NaN feature value / threshold as a term of the model's extended rationals (Model/ExtQ.v)"""
+    if isinstance(v, float) and math.isinf(v):
+        return 'PInf' if v > 0 else 'MInf'
+    return '(Fin %s)' % q(v)
+
+
+def optq_ext(v):
+    return 'None' if (v is None or v != v) else '(Some %s)' % ext(v)
+
+
 def coq_marker(case, obs):
     if 'exc' in obs:
         return None
     k = len(case['cols'][0])
-    rows = coq_list(coq_list(optq(case['cols'][j][i]) for j in range(len(case['cols']))) for i in range(k))
-    return '(%s, %s, %s, %s)' % (coq_bool(case['mode'] == 1), rows, coq_list(q(t) for t in case['thr']), coq_list(coq_bool(v == 1) for v in obs['out']))
+    rows = coq_list(coq_list(optq_ext(case['cols'][j][i]) for j in range(len(case['cols']))) for i in range(k))
+    return '(%s, %s, %s, %s)' % (coq_bool(case['mode'] == 1), rows, coq_list(ext(t) for t in case['thr']), coq_list(coq_bool(v == 1) for v in obs['out']))
 
 
 def oracle_marker(case, obs):
@@ -184,15 +200,15 @@ def oracle_marker(case, obs):
 
 S_MARK = Stream(
     name='markers', budget={'quick': 600, 'thorough': 12000},
-    rule=('1..3 tested features on 1..8 observations with values below / equal to / above the thresholds and NaN, both comparison modes, scalar and list arguments; '
+    rule=('1..3 tested features on 1..8 observations with values below / equal to / above the thresholds, NaN and (one case in five) +-inf (the model runs on the extended rationals of Model/ExtQ.v); both comparison modes, scalar and list arguments; '
           'observed: the marker column and the tested columns afterwards; non-trivial = some value is NaN or equals its threshold'),
-    imports='From Coq Require Import List Arith Bool QArith.\nImport ListNotations.\nFrom TL Require Import Model.Split.\nOpen Scope Q_scope.',
-    case_type='bool * list (list (option Q)) * list Q * list bool',
+    imports='From Coq Require Import List Arith Bool QArith.\nImport ListNotations.\nFrom TL Require Import Model.Split Model.ExtQ.\nOpen Scope Q_scope.',
+    case_type='bool * list (list (option extq)) * list extq * list bool',
     check_def='''Definition beq (a b : bool) : bool := if a then b else negb b.
 Fixpoint leqb (a b : list bool) : bool := match a, b with [], [] => true | x :: r, y :: s => beq x y && leqb r s | _, _ => false end.
-Definition ok (c : bool * list (list (option Q)) * list Q * list bool) : bool :=
+Definition ok (c : bool * list (list (option extq)) * list extq * list bool) : bool :=
   let '(andm, rows, thr, out) := c in
-  leqb (map (fun vals => if andm then marker_and Q Qle_bool vals thr else marker_or Q Qle_bool vals thr) rows) out.''',
+  leqb (map (fun vals => if andm then marker_and extq extq_leb vals thr else marker_or extq extq_leb vals thr) rows) out.''',
     generate=gen_marker, run_impl=run_marker, coq_case=coq_marker, oracle=oracle_marker,
     nontrivial=lambda c, o: any(v is None or v in c['thr'] for col in c['cols'] for v in col),
     klass=lambda c, o: ('AND' if c['mode'] == 1 else 'OR') + '/%d' % len(c['cols']))
